@@ -2,6 +2,8 @@
 package c07
 
 import (
+	"strings"
+	"github.com/ucan-wg/go-ucan/pkg/args"
 	"time"
 	"io"
 	"bytes"
@@ -760,4 +762,169 @@ func TestOptionSequences(t *testing.T) {
 	P.EvalN(n)
 	P.AddDistinct(n)
 	P.SetExtra("option_sequences", n)
+}
+
+// TestSharedArguments: ONE *args.Args given to several constructor calls (a template of arguments, completed per
+// invocation with WithArgument), with 0..9 keys in it, in every position relative to the per-call arguments, followed
+// by a second user of the same template: another invocation completed with other keys, or keys added to the template
+// itself. A constructed token is a value of its own: what it holds is what its options said at the time (checked
+// against an independent map of expectations), it stays that after the template has been used again, and it seals and
+// unseals to exactly that.
+func TestSharedArguments(t *testing.T) {
+	ctx := &h.Ctx{P: P, T: t}
+	iss, aud := keys.Principal(0), keys.Principal(1)
+	n := 0
+	type want struct {
+		keys []string
+		vals map[string]int64
+	}
+	expect := func(tk *invocation.Token, w want, what string) bool {
+		n++
+		v, err := tok.ViewOf(tk)
+		if err != nil {
+			ctx.Fail("C07/shared-arguments/accessors", "%s: accessors of a constructed token fail: %v", what, err)
+			return false
+		}
+		if fmt.Sprint(v.ArgKeys) != fmt.Sprint(w.keys) {
+			ctx.Fail("C07/shared-arguments/keys-differ", "%s: the token lists the argument keys %v, its options said %v", what, v.ArgKeys, w.keys)
+			return false
+		}
+		for k, x := range w.vals {
+			nd, ok := v.Args[k]
+			if !ok {
+				ctx.Fail("C07/shared-arguments/value-missing", "%s: argument %q has no value", what, k)
+				return false
+			}
+			if got, err := nd.AsInt(); err != nil || got != x {
+				ctx.Fail("C07/shared-arguments/value-differs", "%s: argument %q = %v (%v), its options said %d", what, k, got, err, x)
+				return false
+			}
+		}
+		var sealed []byte
+		var id cid.Cid
+		if pn, pv, _ := h.Try(func() { sealed, id, err = tk.ToSealed(iss.Priv) }); pn || err != nil {
+			ctx.Fail("C07/shared-arguments/seal-fails", "%s: sealing fails: %v %v", what, pv, err)
+			return false
+		}
+		back, id2, err := token.FromSealed(sealed)
+		if err != nil || id2 != id {
+			ctx.Fail("C07/shared-arguments/unseal-fails", "%s: the sealed token cannot be unsealed: %v", what, err)
+			return false
+		}
+		if v1, err := tok.ViewOf(back); err != nil || tok.Diff(v, v1) != "" {
+			ctx.Fail("C07/shared-arguments/changed", "%s: the unsealed token differs from the constructed one: %s %v", what, tok.Diff(v, v1), err)
+			return false
+		}
+		var js []byte
+		if pn, pv, _ := h.Try(func() { js, err = tk.ToDagJson(iss.Priv) }); pn || err != nil {
+			ctx.Fail("C07/shared-arguments/seal-fails", "%s: ToDagJson fails: %v %v", what, pv, err)
+			return false
+		}
+		if _, err := token.FromDagJson(js); err != nil {
+			ctx.Fail("C07/shared-arguments/unseal-fails", "%s: FromDagJson fails: %v", what, err)
+			return false
+		}
+		return true
+	}
+	// build(tmpl, shape, tag): the options of one call and what they say. Shapes: template first then 1 or 2 own
+	// keys; own key first; template between; template twice; a second template behind the first.
+	shapes := []string{"T,a", "T,a,b", "a,T", "a,T,b", "T,T,a", "T", "T,U,a", "a"}
+	for size := 0; size <= 9; size++ {
+		for _, shape := range shapes {
+			for _, second := range []string{"other-call", "other-call-two-keys", "template-add", "same-call-again", "none"} {
+				tmpl, other := args.New(), args.New()
+				base := want{vals: map[string]int64{}}
+				for i := 0; i < size; i++ {
+					k := fmt.Sprintf("k%d", i)
+					if err := tmpl.Add(k, int64(100+i)); err != nil {
+						t.Fatal(err)
+					}
+					base.keys = append(base.keys, k)
+					base.vals[k] = int64(100 + i)
+				}
+				_ = other.Add("u0", int64(900))
+				_ = other.Add("k0", int64(901)) // a key the first template may hold too: the first value stays
+				build := func(tag int64) ([]invocation.Option, want) {
+					w := want{vals: map[string]int64{}}
+					var opts []invocation.Option
+					put := func(k string, v int64) {
+						if _, ok := w.vals[k]; ok {
+							return
+						}
+						w.keys = append(w.keys, k)
+						w.vals[k] = v
+					}
+					for _, part := range strings.Split(shape, ",") {
+						switch part {
+						case "T":
+							opts = append(opts, invocation.WithArguments(tmpl))
+							for _, k := range base.keys {
+								put(k, base.vals[k])
+							}
+						case "U":
+							opts = append(opts, invocation.WithArguments(other))
+							put("u0", 900)
+							put("k0", 901)
+						default:
+							k := fmt.Sprintf("%s%d", part, tag)
+							opts = append(opts, invocation.WithArgument(k, tag))
+							put(k, tag)
+						}
+					}
+					return opts, w
+				}
+				what := fmt.Sprintf("invocation.New with options [%s] over a shared %d-key Args, then %s", shape, size, second)
+				o1, w1 := build(1)
+				tk1, err := invocation.New(iss.DID, aud.DID, command.MustParse("/foo"), []cid.Cid{}, o1...)
+				if err != nil {
+					ctx.Fail("C07/shared-arguments/refused", "%s: refused: %v", what, err)
+					continue
+				}
+				if !expect(tk1, w1, what+" (first token, before)") {
+					return
+				}
+				var tk2 *invocation.Token
+				var w2 want
+				switch second {
+				case "other-call":
+					var o2 []invocation.Option
+					o2, w2 = build(2)
+					tk2, err = invocation.New(iss.DID, aud.DID, command.MustParse("/foo"), []cid.Cid{}, o2...)
+				case "other-call-two-keys":
+					var o2 []invocation.Option
+					o2, w2 = build(2)
+					o2 = append(o2, invocation.WithArgument("z2", int64(22)))
+					w2.keys, w2.vals["z2"] = append(w2.keys, "z2"), 22
+					tk2, err = invocation.New(iss.DID, aud.DID, command.MustParse("/foo"), []cid.Cid{}, o2...)
+				case "template-add":
+					err = tmpl.Add("late", int64(7))
+				case "same-call-again":
+					tk2, err = invocation.New(iss.DID, aud.DID, command.MustParse("/foo"), []cid.Cid{}, o1...)
+					w2 = w1
+				}
+				if err != nil {
+					ctx.Fail("C07/shared-arguments/refused", "%s: the second use is refused: %v", what, err)
+					continue
+				}
+				if tk2 != nil && !expect(tk2, w2, what+" (second token)") {
+					return
+				}
+				if !expect(tk1, w1, what+" (first token, after)") {
+					return
+				}
+				// the template itself is the caller's: it holds what the caller put in it
+				tw := base
+				if second == "template-add" {
+					tw.keys = append(append([]string{}, base.keys...), "late")
+				}
+				if fmt.Sprint(tmpl.Keys) != fmt.Sprint(tw.keys) && !(len(tmpl.Keys) == 0 && len(tw.keys) == 0) {
+					ctx.Fail("C07/shared-arguments/template-changed", "%s: the caller's Args lists %v, the caller put %v in it", what, tmpl.Keys, tw.keys)
+					return
+				}
+			}
+		}
+	}
+	P.EvalN(n)
+	P.AddDistinct(n)
+	P.SetExtra("shared_argument_tokens", n)
 }
